@@ -240,6 +240,13 @@ def lean_sources():
 
 # ------------------------------------------------------------------ drivers
 
+class AbortBudget(Exception):
+    pass
+
+
+ABORT_BUDGET = 30      # after this many ops that killed the real library the run stops exploring (each is a replay)
+
+
 class Ctx:
     def __init__(self, prep, pid, seed, tier):
         self.prep, self.pid, self.seed, self.tier = prep, pid, seed, tier
@@ -247,6 +254,7 @@ class Ctx:
         os.makedirs(self.workdir, exist_ok=True)
         self.n_c = 0
         self.aborts = []
+        self.in_evaluator = False
 
     def _run(self, exe, ops, tag, env=None):
         inp = os.path.join(self.workdir, f"{tag}.in")
@@ -277,6 +285,11 @@ class Ctx:
         self.n_c += len(ops)
         start = 0
         while start < len(ops):
+            if len(self.aborts) >= ABORT_BUDGET:
+                if self.in_evaluator:
+                    raise AbortBudget()
+                out += ["notrun"] * (len(ops) - start)
+                break
             r = self._run(self.prep.drv, ops[start:], tag)
             lines = r.stdout.split("\n")
             if lines and lines[-1] == "":
@@ -434,7 +447,7 @@ def run_property(pid, tier, seed):
                 try:
                     mout = ctx.m(ops, tag="m_" + name)
                     for o, a, b in zip(ops, cout, mout):
-                        if a != b and b != "skip":
+                        if a != b and b != "skip" and a != "notrun":
                             st["disagreements"] += 1
                             if len(disagreements) < 50:
                                 disagreements.append({"stream": name, "op": o, "c": a[:500], "model": b[:500]})
@@ -450,15 +463,21 @@ def run_property(pid, tier, seed):
         if disagreements:
             broken.append({"kind": "correspondence", "name": ",".join(sorted({d["stream"] for d in disagreements})),
                            "detail": disagreements[:10]})
+        # ---- C-side evaluator of the property statement
+        focus = [d["op"] for d in disagreements] if disagreements else []
+        budget = 1 if not broken else 10
+        ctx.in_evaluator = True
+        try:
+            ev = mod.evaluate(ctx, rng, tier, focus=focus, budget=budget, broken=broken)
+        except AbortBudget:
+            ev = {"coverage": {"stopped": f"the real library aborted on {len(ctx.aborts)} operations; exploration stopped"},
+                  "violations": []}
+        ctx.in_evaluator = False
         # ---- aborts are violations of C12 and of this property's stream
         for ab in ctx.aborts:
             violations.append({"what": "the real library aborted (sanitizer / assertion / NEVER-ALWAYS)",
                                "ops": [ab["op"]], "observed": ab["kind"], "expected": "normal return",
                                "key": "abort:" + ab["op"].replace(" ", "_"), "stderr": ab["stderr"]})
-        # ---- C-side evaluator of the property statement
-        focus = [d["op"] for d in disagreements] if disagreements else []
-        budget = 1 if not broken else 10
-        ev = mod.evaluate(ctx, rng, tier, focus=focus, budget=budget, broken=broken)
         cov["evaluator"] = ev.get("coverage", {})
         evaluations += ev.get("evaluations", 0)
         for s in ev.get("distinct", []):
